@@ -8,19 +8,19 @@ MUT = {
  "M2_maxdef": ("schema.py", "            if element.repetition_type != parquet_thrift.FieldRepetitionType.REQUIRED:\n                max_level += 1",
                "            if element.repetition_type == parquet_thrift.FieldRepetitionType.OPTIONAL:\n                max_level += 1"),
  "M3_null_true_v1": ("core.py", "    return n_opt > 0, defi, max_def - shift", "    return True, defi, max_def - shift"),
- "M4_v2_idx_not_advanced": ("core.py", "                null=null, null_val=False, max_defi=max_def, prev_i=0\n            )\n            idx[0] += data_header2.num_rows\n        elif data_header2.num_nulls:",
-                            "                null=null, null_val=False, max_defi=max_def, prev_i=0\n            )\n        elif data_header2.num_nulls:"),
+ "M4_v2_idx_not_advanced": ("core.py", "                    null=null, null_val=False, max_defi=max_def, prev_i=0\n                )\n            idx[0] += data_header2.num_rows\n        elif data_header2.num_nulls:",
+                            "                    null=null, null_val=False, max_defi=max_def, prev_i=0\n                )\n        elif data_header2.num_nulls:"),
  "M5_kv_swapped": ("core.py", "                    value, key = out[name], maps[name]", "                    key, value = out[name], maps[name]"),
  "M6_maplike_key_optional_ok": ("schema.py", "    if set(se2[\"children\"]) != {'key', 'value'}:\n        return False", "    if set(se2[\"children\"]) != {'key', 'value'}:\n        return True"),
  "M7_c_i_plus_2": ("cencoding.c", "        __pyx_v_i = (__pyx_v_i + 1);", "        __pyx_v_i = (__pyx_v_i + 2);"),
  "M8_c_vali_ge_0": ("cencoding.c", "        __pyx_t_1 = (__pyx_v_vali > 0);", "        __pyx_t_1 = (__pyx_v_vali >= 0);"),
  "M9_maxrep": ("schema.py", "            if element.repetition_type == parquet_thrift.FieldRepetitionType.REPEATED:\n                max_level += 1",
                "            if element.repetition_type == parquet_thrift.FieldRepetitionType.REPEATED and i > 1:\n                max_level += 1"),
- "M10_v2_null_true": ("core.py", "                null=null, null_val=False, max_defi=max_def, prev_i=0\n            )\n            idx[0] += data_header2.num_rows\n        elif data_header2.num_nulls:",
-                      "                null=True, null_val=False, max_defi=max_def, prev_i=0\n            )\n            idx[0] += data_header2.num_rows\n        elif data_header2.num_nulls:"),
+ "M10_v2_null_true": ("core.py", "                    null=null, null_val=False, max_defi=max_def, prev_i=0\n                )\n            idx[0] += data_header2.num_rows\n        elif data_header2.num_nulls:",
+                      "                    null=True, null_val=False, max_defi=max_def, prev_i=0\n                )\n            idx[0] += data_header2.num_rows\n        elif data_header2.num_nulls:"),
  "M11_v2_plain_flat": ("core.py", "    if max_rep and data_header2.encoding == parquet_thrift.Encoding.PLAIN:", "    if False and data_header2.encoding == parquet_thrift.Encoding.PLAIN:"),
  "M12_v2_level_len": ("core.py", "encoding.read_rle_bit_packed_hybrid(io_obj, bit_width, data_header2.repetition_levels_byte_length,", "encoding.read_rle_bit_packed_hybrid(io_obj, bit_width, data_header2.num_values,"),
- "M13_d_flag": ("core.py", "                assign, ldefi, rep, val, dic, d,\n", "                assign, ldefi, rep, val, dic, False,\n"),
+ "M13_d_flag": ("core.py", "                    assign, ldefi, lrep, lval, dic, d,\n", "                    assign, ldefi, lrep, lval, dic, False,\n"),
  "M14_listlike_drop_repeated_check": ("schema.py", "    if se2.repetition_type != parquet_thrift.FieldRepetitionType.REPEATED:\n        return False\n    se3 = list(se2[\"children\"].values())[0]", "    se3 = list(se2[\"children\"].values())[0]"),
  "M15_c_de_ge_null": ("cencoding.c", "    __pyx_t_1 = (__pyx_v_de > __pyx_v_null);", "    __pyx_t_1 = (__pyx_v_de >= __pyx_v_null);"),
  "M16_name_path": ("core.py", "            name = \".\".join(column.meta_data.path_in_schema[:-2])", "            name = \".\".join(column.meta_data.path_in_schema[:-1])"),
@@ -37,6 +37,16 @@ MUT = {
  "M27_rowidx_only_multi": ("core.py", "            row_idx[0] = 1 + encoding._assemble_objects(", "            row_idx[0] = (1 if len(rep) > 1 else 0) + encoding._assemble_objects("),
  "M28_no_struct_shift": ("core.py", "    shift = max(n_opt - 1, 0)\n", "    shift = 0\n"),
  "M29_null_from_path0": ("core.py", "    return n_opt > 0, defi, max_def - shift", "    return (not schema_helper.is_required(path[0])), defi, max_def - shift"),
+ "M30_cont_only_not_handled": ("core.py", "            lead = int(starts[0]) if len(starts) else len(rep)\n", "            lead = int(starts[0]) if len(starts) else 0\n"),
+ "M31_lead_nulls_dropped": ("core.py", "                    elif de > null:\n                        items.append(None)\n                assign[row_idx[0] - 1].extend(items)", "                assign[row_idx[0] - 1].extend(items)"),
+ "M32_lead_values_offset": ("core.py", "                lrep, lval = rep[lead:], val[nv:]", "                lrep, lval = rep[lead:], val[lead:]"),
+ "M33_always_call": ("core.py", "            if len(lrep):\n                row_idx[0] = 1 + encoding._assemble_objects(", "            if True:\n                row_idx[0] = 1 + encoding._assemble_objects("),
+ "M34_lead_only_if_value": ("core.py", "                assign[row_idx[0] - 1].extend(items)\n", "                if nv:\n                    assign[row_idx[0] - 1].extend(items)\n"),
+ "M35_lead_no_dict": ("core.py", "                vals = iter(dic[val[:nv]] if d else val[:nv])", "                vals = iter(val[:nv])"),
+ "M37_no_refusal_two_levels": ("core.py", "    if schema_helper.max_repetition_level(path) > 1:", "    if False:"),
+ "M38_v2_empty_page_not_skipped": ("core.py", "    if len(repi) == 0:\n        return False", "    if len(repi) == 0:\n        return True"),
+ "M39_v2_inside_row_not_refused": ("core.py", "    if repi[0] != 0:\n        raise ValueError", "    if False:\n        raise ValueError"),
+ "M36_stats_null_count": ("core.py", None, None),
  "N1_rename_local": ("core.py", None, None),
  "N2_reorder": ("core.py", "            null, ldefi, lmax_defi = _nested_levels(schema_helper, cmd.path_in_schema, defi, max_defi)\n            null_val = (se.repetition_type !=\n                        parquet_thrift.FieldRepetitionType.REQUIRED)\n",
                 "            null_val = (se.repetition_type !=\n                        parquet_thrift.FieldRepetitionType.REQUIRED)\n            null, ldefi, lmax_defi = _nested_levels(schema_helper, cmd.path_in_schema, defi, max_defi)\n"),
@@ -48,7 +58,11 @@ name = sys.argv[1]
 f, old, new = MUT[name]
 p = R + f
 src = open(p).read()
-if name == "N1_rename_local":
+if name == "M36_stats_null_count":
+    import subprocess as sp
+    sp.check_call(["git", "-C", os.path.dirname(R.rstrip("/")), "apply", os.path.join(os.path.dirname(os.path.dirname(os.path.abspath(__file__))), "seeded", "C15-3", "patch.diff")])
+    new_src = open(p).read()
+elif name == "N1_rename_local":
     new_src = src.replace("row_idx", "list_row_index")
     assert new_src != src
 else:
